@@ -68,6 +68,10 @@ class Obj:
     pass
 
 
+class LoaderStuck(Exception):
+    """the emitted loader does not reach its exit (reported as a violation after a concrete replay)"""
+
+
 def make_tracer(lt, sim, data_block):
     t = lt.LoadTracer.__new__(lt.LoadTracer)
     t.simulator = sim
@@ -122,7 +126,7 @@ def run_loader(sim, memory, tracer, address, max_steps=80):
         if n and pc == LOADER and False:
             return n
         sim.opcodes[memory[pc]]()
-    raise HarnessError('the loader did not finish within %d instructions' % max_steps)
+    raise LoaderStuck('the loader did not finish within %d instructions' % max_steps)
 
 
 def check_loader(item):
@@ -222,12 +226,190 @@ def check_loader(item):
     return finish(res, st)
 
 
+def bank_setup(lt, sm, blocks, nbanks, loader_addr):
+    """128K machine with the bank loader (as LOADed by the BASIC loader) in place and the bank blocks on the tape"""
+    from skoolkit.pagingtracer import Memory
+    memory = Memory(out7ffd=0x10)                # 48K BASIC ROM paged in, as when the BASIC loader runs
+    hdr, loader = blocks[-2 - nbanks], blocks[-1 - nbanks]
+    address = hdr[14] + 256 * hdr[15]
+    for k, b in enumerate(loader[1:-1]):
+        memory[address + k] = b
+    sim = sm.Simulator(memory, config={'frame_duration': 70908, 'int_active': 36})
+    sim.registers[12] = 0x7FF0 if loader_addr >= 0x8000 else 0x5F00      # BASIC's stack sits below the CLEAR address
+    sim.registers[24] = address
+    sim.registers[26] = 1
+    sim.registers[27] = 1
+    tracer = make_tracer(lt, sim, None)
+    tb = []
+    for k, data in enumerate(blocks[len(blocks) - nbanks:]):
+        blk = Obj()
+        blk.data, blk.fast_load, blk.keys = data, True, None
+        blk.start, blk.end = 10 * k + 1, 10 * k + 5
+        tb.append(blk)
+    tracer.blocks = tb
+    tracer.block_index = 0
+    tracer.block_data_index = tb[0].start
+    tracer.max_index = 10 * len(tb) + 5
+    tracer.edges = list(range(10 * len(tb) + 20))
+    tracer.state = [0, 0, 0, tb[0].end, 0, 0, 0, 1, 0, 0]
+    tracer.pause = 0
+    tracer.out7ffd = 0x10
+    sim.set_tracer(tracer, False, False)
+    return memory, sim, tracer, address
+
+
+def run_bank_loader(sim, memory, tracer, max_steps=400):
+    regs = sim.registers
+    for n in range(max_steps):
+        pc = regs[24]
+        if not isinstance(pc, int):
+            s = z3.simplify(pc.e) if isinstance(pc, SymInt) else None
+            if s is None or not z3.is_bv_value(s):
+                return n
+            pc = regs[24] = s.as_long()
+        if pc == 0x0556:
+            if not tracer.fast_load(sim):
+                raise HarnessError('fast_load declined a bank block')
+            tracer.state[1] = tracer.state[3]           # as LoadTracer.run does after a fast load: the tape is at the end of the block
+            continue
+        sim.opcodes[memory[pc]]()
+    raise LoaderStuck('the bank loader did not finish within %d instructions' % max_steps)
+
+
+def check_banks(item):
+    """('banks', loader address, 7ffd value, bank numbers)"""
+    _, loader_addr, o7, bankset = item
+    st = Stats()
+    res = new_res()
+    import skoolkit.bin2tap as b2t
+    import skoolkit.loadtracer as lt
+    import skoolkit.simulator as sm
+    name = 'bin2tap 128K bank loader at %d, --7ffd %d, banks %r' % (loader_addr, o7, list(bankset))
+    state = {}
+
+    def fn(path):
+        start = sym_int('start', 0, 65535)
+        banks = {}
+        syms = {}
+        for b in bankset:
+            data = [(b * 37 + i) % 256 for i in range(16384)]
+            for pos in (0, 1, 8191, 16383):
+                v = sym_int('b%d_%d' % (b, pos), 0, 255)
+                data[pos] = v
+                syms[(b, pos)] = v
+            banks[b] = data
+        captured = []
+        real = b2t.write_tap
+        b2t.write_tap = lambda f, blocks: captured.append(blocks)
+        try:
+            b2t.run([1, 2, 3], loader_addr - 1, 40000 if loader_addr < 40000 else 30000, start, 0, 'prog.tap', None, banks, o7, loader_addr)
+        finally:
+            b2t.write_tap = real
+        memory, sim, tracer, address = bank_setup(lt, sm, captured[0], len(bankset), loader_addr)
+        if address != loader_addr:
+            raise HarnessError('bank loader header address %r' % (address,))
+        steps = run_bank_loader(sim, memory, tracer)
+        state.update(start=start, syms=syms, memory=memory, sim=sim, tracer=tracer)
+        return steps
+
+    def on(p, out):
+        res['obligations'] += 1
+        case = dict(kind='banks', item=[loader_addr, o7, list(bankset)])
+        if isinstance(out, tuple) and out[0] == 'exception':
+            res['violations'].append(dict(key='%s:exception:%s' % (name, type(out[1]).__name__), text='%s raises %r' % (name, out[1]), case=case))
+            return
+        sim, memory, tracer = state['sim'], state['memory'], state['tracer']
+        structural, diffs, names = [], [], []
+        diffs.append(bv(sim.registers[24]) != state['start'].e); names.append('PC is not START when the bank loader finishes')
+        if isinstance(tracer.out7ffd, int):
+            if tracer.out7ffd != o7 & 0x3F:
+                structural.append('port 0x7FFD holds %d, %d requested' % (tracer.out7ffd, o7))
+        else:
+            diffs.append(bv(tracer.out7ffd) != (o7 & 0x3F)); names.append('port 0x7FFD value')
+        for (b, pos), v in state['syms'].items():
+            got = memory.banks[b][pos]
+            if isinstance(got, int):
+                structural.append('RAM bank %d offset %d holds %d instead of its byte' % (b, pos, got))
+            else:
+                diffs.append(bv(got) != v.e); names.append('RAM bank %d offset %d' % (b, pos))
+        for b in bankset:
+            if [x for i, x in enumerate(memory.banks[b]) if isinstance(x, int) and x != (b * 37 + i) % 256][:1]:
+                structural.append('RAM bank %d does not hold its block' % b)
+        if structural:
+            r, mod = p.check(model=True); which = structural
+        else:
+            r, mod, which = p.check_any(diffs, names)
+        if r == 'unknown':
+            res['inconclusive'].append(name); return
+        if r == 'sat':
+            case['start'] = mod.eval(state['start'].e, model_completion=True).as_long()
+            res['violations'].append(dict(key='%s:%s' % (name, which[0][:40]), text='%s: %s (START=%d)' % (name, '; '.join(which[:3]), case['start']), case=case))
+            return
+        res['discharged'] += 1
+        res['nontrivial'] += 1
+        if not res['samples']:
+            res['samples'].append({'item': name, 'instructions executed': out, 'verdict': 'unsat'})
+
+    try:
+        explore(fn, stats=st, on_path=on, max_paths=200)
+    except Inconclusive as e:
+        res['inconclusive'].append('%s: %s' % (name, e))
+    return finish(res, st)
+
+
+def replay_banks(case):
+    import skoolkit.bin2tap as b2t
+    import skoolkit.loadtracer as lt
+    import skoolkit.simulator as sm
+    lt.write_line = lambda *a: None
+    loader_addr, o7, bankset = case['item']
+    start = case.get('start', 32768)
+    banks = {b: [(b * 37 + i) % 256 for i in range(16384)] for b in bankset}
+    captured = []
+    real = b2t.write_tap
+    b2t.write_tap = lambda f, blocks: captured.append(blocks)
+    try:
+        b2t.run([1, 2, 3], loader_addr - 1, 40000 if loader_addr < 40000 else 30000, start, 0, 'prog.tap', None, banks, o7, loader_addr)
+    except Exception as e:
+        return True, 'bin2tap.run raises %r' % e
+    finally:
+        b2t.write_tap = real
+    memory, sim, tracer, address = bank_setup(lt, sm, captured[0], len(bankset), loader_addr)
+    regs = sim.registers
+    try:
+        for n in range(2000):
+            pc = regs[24]
+            if n and not (pc < 0x4000 or address <= pc < address + 38):
+                break
+            if pc == 0x0556:
+                if not tracer.fast_load(sim):
+                    return True, 'fast_load declined a bank block'
+                tracer.state[1] = tracer.state[3]
+                continue
+            sim.opcodes[memory[pc]]()
+        else:
+            return True, 'the bank loader does not finish (PC=%d after 2000 instructions)' % regs[24]
+    except Exception as e:
+        return True, 'raises %r' % e
+    bad = []
+    if regs[24] != start:
+        bad.append('PC = %d, START = %d' % (regs[24], start))
+    if tracer.out7ffd != o7 & 0x3F:
+        bad.append('port 0x7FFD = %d, requested %d' % (tracer.out7ffd, o7))
+    for b in bankset:
+        if list(memory.banks[b]) != banks[b]:
+            bad.append('RAM bank %d does not hold its block' % b)
+    return bool(bad), '; '.join(bad[:4]) or 'banks loaded and program started as requested'
+
+
 def work(item):
-    return check_loader(item)
+    return check_banks(item) if item[0] == 'banks' else check_loader(item)
 
 
 def replay(case):
     """the same route with concrete values and plain lists"""
+    if case['kind'] == 'banks':
+        return replay_banks(case)
     import skoolkit.bin2tap as b2t
     import skoolkit.loadtracer as lt
     import skoolkit.simulator as sm
@@ -286,14 +468,19 @@ def main():
         print(('REPRODUCED: ' if ok else 'not reproduced: ') + detail)
         return 1 if ok else 0
     items = [('loader', n) for n in ((1, 2, 3, 5) if args.tier == 'quick' else (1, 2, 3, 4, 5, 6, 8))]
+    for la in ((32768, 33000, 24577) if args.tier == 'quick' else (32768, 33000, 24577, 33241, 48000, 27000, 32986)):
+        for o7 in ((0, 17) if args.tier == 'quick' else (0, 1, 7, 16, 17, 23)):
+            for bs in (((0,), (1, 3)) if args.tier == 'quick' else ((0,), (1, 3), (7,), (0, 1, 3, 4, 6, 7))):
+                items.append(('banks', la, o7, bs))
     if args.only:
         items = [i for i in items if args.only in harness.item_name(i)]
     rep = harness.Report(
         PROP, args,
-        functions=['skoolkit.bin2tap.run (stack pre-fill) / _get_data_loader / _get_header / _make_block / _get_basic_loader', 'skoolkit.loadtracer.LoadTracer.fast_load / _read_port',
+        functions=['skoolkit.bin2tap.run (stack pre-fill) / _get_data_loader / _get_bank_loader / _get_header / _make_block / _get_basic_loader', 'skoolkit.pagingtracer.PagingTracer.write_port / Memory.out7ffd', 'skoolkit.loadtracer.LoadTracer.fast_load / _read_port',
                    'skoolkit.simulator.Simulator closures executing the emitted loader and the ROM routine SA/LD-RET (real 48K ROM image)'],
         bounds={'binary': '1-%d symbolic bytes' % (5 if args.tier == 'quick' else 8), 'addresses': 'ORG 16384-65535 (block inside memory), START 0-65535, STACK 16398-65535, all symbolic',
-                'outside': 'the BASIC loader and LOAD ""CODE of the loader block (ROM interpreter), edge-level loading (fast_load serves LD-BYTES), --clear, loading screens, 128K bank loader, PZX output, interrupts during the '
+                '128K': 'the bank loader (real _get_bank_loader output) run on a 128K memory with the real ROMs from a handful of loader addresses (incl. ones whose bank table crosses a page), --7ffd values and bank subsets; START and four bytes of each bank symbolic',
+                'outside': 'the BASIC loader and LOAD ""CODE of the loader blocks (ROM interpreter), edge-level loading (fast_load serves LD-BYTES), the BASIC CLEAR path for the main block, loading screens, PZX output, interrupts during the '
                            'loader, binaries or stack areas overlapping the loader code at 23296-23319'},
         assumptions=['BASIC stack at 0xFF40 and IFF = 1, IM 1 when the loader starts', 'the tape block offered to LD-BYTES is the data block bin2tap emitted (LoadTracer state constructed directly)'],
         stubs=['write_tap replaced by a recorder (the blocks are used directly)', 'LoadTracer constructed without get_edges'],
